@@ -118,7 +118,7 @@ META = {
               "(C08.connects_refine_paths, connect_step); corollaries for chains of any length: path_iter enumerates the path (walk_enumerates_path), the walk from the far end "
               "is the exact mirror image (walk_mirror), a message is handed exactly once to the far-end owner at send time + sum of hop delays with last_gate/receiver set "
               "(delivered_once_to_far_owner, arrival_time_eq_send_plus_sum_of_hop_delays, header_fields), connect symmetric/idempotent, degree <= 2; a delayed send issued before the wiring is complete "
-              "travels the chain as wired at its send time (delayed_send_uses_wiring_at_send_time, forwardT over a time-indexed wiring); header fields are re-stamped on every leg whatever the header held before (header_restamped_per_leg, header_fields_any_prior_header). Tied to the code by "
+              "travels the chain as wired at its send time (delayed_send_uses_wiring_at_send_time, forwardT over a time-indexed wiring); header fields are re-stamped on every leg whatever the header held before (header_restamped_per_leg, header_fields_any_prior_header); bursts over queueing inner hops are served first-in first-out per channel direction (Spec.ChainSrv; burst_exactly_once_and_idle_delay, burst_start_times); gate lookup by (name,pos) finds exactly that cluster member for every registration order (gate_lookup_finds_member). Tied to the code by "
               "replaying thousands of generated simulations built with the real builder API."),
         design_ref="DESIGN.md §5 C08",
         note=("Trusted: Lean kernel; the three standard axioms; the hand transcription Rust->Lean; harness/driver/orchestrator. Channels are represented by the delay of an idle "
